@@ -194,13 +194,63 @@ type outcome struct {
 }
 
 // runSlip evaluates the program with the real interpreter.
+// mixedNames: the names (lower case) the current deterministic program spells
+// with upper-case letters; nil for every other program.
+var mixedNames map[string]bool
+
+var reMixedToken = regexp.MustCompile(`[A-Za-z][A-Za-z0-9*+-]*`)
+
+func mixedNamesOf(src string) map[string]bool {
+	out := map[string]bool{}
+	for _, tok := range reMixedToken.FindAllString(foldStrings(src), -1) {
+		if low := strings.ToLower(tok); low != tok {
+			out[low] = true
+		}
+	}
+	return out
+}
+
+// foldStrings blanks out string and character literals.
+func foldStrings(src string) string {
+	b := []byte(src)
+	in := false
+	for i := 0; i < len(b); i++ {
+		c := b[i]
+		switch {
+		case c == '"' && (i == 0 || b[i-1] != '\\'):
+			in = !in
+			b[i] = ' '
+		case in:
+			b[i] = ' '
+		case c == '#' && i+2 < len(b) && b[i+1] == '\\':
+			b[i], b[i+1], b[i+2] = ' ', ' ', ' '
+			i += 2
+		}
+	}
+	return string(b)
+}
+
 func runSlip(forms []*ref.V, compile, typed bool, limit int) (o outcome) {
 	if limit <= 0 || slipSteps < limit {
 		limit = slipSteps
 	}
 	runCounter++
 	suffix := fmt.Sprintf("-r7q%d", runCounter)
+	occ := map[string]int{}
 	rename := func(s string) string {
+		if mixedNames[s] {
+			// a name the deterministic program spells in mixed case: its occurrences
+			// are written Capitalised, lower case, UPPER CASE by turns (the parser
+			// of the reference folds case, the language does too)
+			occ[s]++
+			switch occ[s] % 3 {
+			case 1:
+				return strings.ToUpper(s[:1]) + s[1:]
+			case 0:
+				return strings.ToUpper(s)
+			}
+			return s
+		}
 		switch {
 		case reFun.MatchString(s):
 			return s + suffix
@@ -864,6 +914,11 @@ func srcOf(fs []*ref.V) string {
 
 func exec(x *fw.Ctx, c Case) {
 	forms, perr := ref.Parse(c.Src)
+	rforms := forms
+	mixedNames = nil
+	if c.Kind == "det" {
+		mixedNames = mixedNamesOf(c.Src)
+	}
 	if perr != nil || len(forms) == 0 {
 		x.Fail("harness-parse", "cannot parse generated program %q: %v", c.Src, perr)
 		return
@@ -889,7 +944,7 @@ func exec(x *fw.Ctx, c Case) {
 			x.Cover("avoided:" + k)
 		}
 	}
-	exps := expectations(forms, typed)
+	exps := expectations(rforms, typed)
 	exp := exps[0]
 	if 1 < len(exps) {
 		x.Cover("judged-under-both-loop-binding-rules")
@@ -1117,6 +1172,10 @@ var detPrograms = []string{
 	"(defun uf2 (x) (list 'got (uf1 (vtr 1 x)))) (defun uf1 (y) y) (let ((foo 42)) (list (uf2 'foo) (uf2 '(+ 1 2)) (uf2 (list 'car foo)) (uf2 foo)))",
 	"(defun uf1 (x acc) (if (consp x) (uf1 (cdr x) (cons (car x) acc)) acc)) (let ((a 1) (b 2)) (list (uf1 '(a b) nil) (uf1 '((+ a b) a) '(b)) (uf1 (list a 'a) (list b 'b))))",
 	"(defun uf2 (x) (uf1 x x)) (defun uf1 (p &optional (q 'nq) &rest r) (list p q r)) (let ((s 5)) (list (uf2 's) (uf2 '(car s)) (funcall #'uf2 'uf2) (mapcar #'uf2 '(s (s)))))",
+	// a variable written with another letter case where it is bound than where it is read
+	"(list (dotimes (I 3 i) (vtr 1 i)) (let ((acc nil)) (dotimes (Count 3 acc) (setq acc (cons count acc)))) (dolist (El (list 1 2) el) (vtr 2 EL)))",
+	"(list (do ((K 0 (1+ k)) (Acc nil (cons K acc))) ((>= k 3) ACC)) (do* ((K 0 (1+ k)) (S 0 (+ s K))) ((> k 2) (list K s))) (let ((X 1) (y 2)) (list x Y)) (let* ((A 1) (b (+ a 1))) (list a B)))",
+	"(list (funcall (lambda (P &optional (Q 2)) (list p q)) 1) (mapcar (lambda (V) (* v 2)) (list 1 2)) (multiple-value-bind (Qa rb) (values 1 2) (list qa RB)))",
 	// a self-evaluating object as the only or the last form of a function body
 	"(defun uf1 () :circle) (list (uf1) (funcall (lambda () :sq)) ((lambda (a) :tri) 1) (uf1))",
 	"(defun uf1 (a) (vtr 1 a) :sq) (defun uf2 () \"s\") (list (uf1 1) (uf2) (funcall (lambda () #\\a)) (funcall (lambda () 3/4)) (funcall (lambda () nil)) (funcall (lambda () t)) (uf1 2))",
